@@ -26,3 +26,19 @@ CHECKS["C08"] = ("property-based testing with an interpolant validator (z3+cvc5 
 CHECKS["C09"] = ("property-based testing with a path-interpolant validator (z3+cvc5)",
                  "Generated unsat scripts with k>=3 ordered groups; each result is a Craig interpolant for its prefix and consecutive interpolants satisfy the path property. Exploration only.",
                  REF, "DESIGN.md §4 C09")
+HOOKED = "hooked build (-DOPENSMT_VERIF_HOOKS, add-only trace); "
+CHECKS["C11"] = ("property-based testing over a guarded trace: every theory clause is checked for validity by z3/cvc5",
+                 "Generated scripts run with the theory-clause trace; every distinct conflict / reason / split clause must be valid in the background theory. Exploration only.",
+                 HOOKED + REF, "DESIGN.md §4 C11, §5")
+CHECKS["C26"] = ("property-based testing over a guarded trace: exact-arithmetic Farkas certificate checker",
+                 "Generated arithmetic scripts run with the LA-explanation trace; every conflict's coefficients are re-checked in exact rational arithmetic. Exploration only.",
+                 HOOKED + "our own linear-term reader and Fraction arithmetic", "DESIGN.md §4 C26, §5")
+CHECKS["C12"] = ("property-based testing over a guarded DRUP-style trace: own reverse-unit-propagation checker",
+                 "Generated scripts x engines x SatELite settings run with the clause trace; every derived / learnt / final-conflict clause must be RUP w.r.t. all clauses known before it. Exploration only.",
+                 HOOKED + "own RUP checker (harness/rupcheck.cc); deletions ignored, which only makes the check more permissive", "DESIGN.md §4 C12, §5")
+CHECKS["C13"] = ("property-based testing over a guarded trace of preprocessed roots: z3/cvc5 decide R=>A and sat(A)=>sat(R)",
+                 "Generated scripts in both preprocessing modes with push/pop; at every check-sat the roots handed to the SAT engine must imply the active assertions and be satisfiable whenever they are. Exploration only.",
+                 HOOKED + REF, "DESIGN.md §4 C13, §5")
+CHECKS["C22"] = ("property-based testing: theory-solver verdicts recorded inside real search (guarded trace) are re-decided by z3/cvc5 on the replayed literal stack",
+                 "Arm A only (monitor inside search, all theories incl. arrays and UF+LA): every inconsistency verdict must be for an unsat literal set, every complete consistent verdict (no pending splits, integer-free logics) for a sat one. The direct stateful harness (arm B of the design) is not built. Exploration only.",
+                 HOOKED + REF, "DESIGN.md §4 C22 arm A, §5")
